@@ -164,8 +164,18 @@ def run_cnf_shape(shape, nv, out, twin=False):
         try:
             res, cert = call_with_budget(sat.solve_cnf, 0.5, cnf)
         except NonTermination:
+            # the symbolic run exceeded its time slice (possibly only because the machine is busy): a candidate.  It is
+            # reported only if the concrete instance does not return natively within a generous limit either.
             if eng.check() == 'sat':
-                out['cex'].append({'kind': 'nontermination', 'cnf': concrete_cnf(eng.model())})
+                ccnf = concrete_cnf(eng.model())
+                with symx.Native():
+                    try:
+                        call_with_budget(sat.solve_cnf, 10.0, ccnf)
+                        out['stats_slow_paths'] = out.get('stats_slow_paths', 0) + 1
+                    except NonTermination:
+                        out['cex'].append({'kind': 'nontermination', 'cnf': ccnf})
+                    except Exception:
+                        pass
             return
         except symx.Infeasible:
             raise
@@ -232,6 +242,7 @@ def run_unit(u):
             total.add(st)
         out['stats'] = total.as_dict()
         out['stats']['shapes'] = len(cl) ** (n - len(fixed))
+        out['stats']['slow_symbolic_paths_confirmed_terminating'] = out.pop('stats_slow_paths', 0)
         if out['evals']:
             out['samples'].append({'cnf_shape': [[NAMES[v] for v in c] for c in shape], 'polarities': 'symbolic', 'paths_in_unit': out['evals']})
     else:
